@@ -193,6 +193,44 @@ def h_recount(locus, delta, k, grouped, anchored=False, tails=False):
     return fn
 
 
+def h_profile_history(locus, delta):
+    """two reads with the same mapped span through ONE profile constructor (as process_genic does for a locus): the
+    second read's profiles equal those of a fresh constructor and the first read's profiles are not changed afterwards"""
+    def fn(g):
+        gi = build_locus(locus, delta)
+        d = delta
+        # read A follows the first two exons of the first isoform (annotated splice sites, outer ends shifted together); read B has
+        # the same span and either no intron or one intron whose sites lie within delta+1 of solver-chosen annotated sites
+        ex = gi.all_isoforms_exons[LOCI[locus][0][0]]
+        shift = g.int("span_shift", -d - 1, d + 1)          # both reads start / end this far from the annotated borders
+        a = [(ex[0][0] + shift, ex[0][1]), (ex[1][0], ex[1][1] + shift)]
+        spliced_b = bool(g.bool("readB_spliced"))
+        if spliced_b:
+            introns = gi.intron_profiles.features
+            inside = [f for f in introns if f[0] > ex[0][0] + 20 and f[1] < ex[1][1] - 20]
+            f1 = inside[g.choice("readB_donor_of", len(inside))]
+            f2 = inside[g.choice("readB_acceptor_of", len(inside))]
+            b_mid = (f1[0] - 1 + g.int("readB_donor_jitter", -d - 1, d + 1), f2[1] + 1 + g.int("readB_acceptor_jitter", -d - 1, d + 1))
+            g.add(b_mid[0] + 2 * d + 2 < b_mid[1])
+            b = [(a[0][0], b_mid[0]), (b_mid[1], a[1][1])]
+        else:
+            b = [(a[0][0], a[1][1])]
+        info = PolyAInfo(-1, -1, -1, -1)
+        pc = lrp.CombinedProfileConstructor(gi, params_for(d))
+        pa = call(g, pc.construct_profiles, a, info, [])
+        snap = [list(pa.read_intron_profile.gene_profile), list(pa.read_exon_profile.gene_profile)]
+        pb = call(g, pc.construct_profiles, b, info, [])
+        fresh = call(g, lrp.CombinedProfileConstructor(gi, params_for(d)).construct_profiles, b, info, [])
+        for name, x, y in (("intron", pb.read_intron_profile, fresh.read_intron_profile), ("exon", pb.read_exon_profile, fresh.read_exon_profile)):
+            g.check(AND([u == v for u, v in zip(x.gene_profile, y.gene_profile)]) and len(x.gene_profile) == len(y.gene_profile),
+                    "the %s profile of a read does not depend on the reads profiled before it" % name,
+                    detail={"after_another_read": str(list(x.gene_profile)), "fresh": str(list(y.gene_profile))})
+        g.check(AND([u == v for u, v in zip(snap[0], pa.read_intron_profile.gene_profile)] +
+                    [u == v for u, v in zip(snap[1], pa.read_exon_profile.gene_profile)]),
+                "the profiles returned for a read are not changed by profiling another read")
+    return fn
+
+
 def instances(tier, seed):
     q = tier == "quick"
     F = ["src.long_read_profiles:CombinedProfileConstructor.construct_profiles",
@@ -218,6 +256,9 @@ def instances(tier, seed):
                                         h_recount(locus, delta, k, gr, False, "light" if q else True), F,
                                         "locus %s, read with %d exons of free coordinates, with/without polyA tail and polyT head, delta=%d" % (locus, k, delta),
                                         weight=30 ** k, budget_s=2400))
+    for li, locus in enumerate(loci):
+        out.append(Instance("profile_history[%s]" % locus, h_profile_history(locus, 6), F[:4],
+                            "locus %s, two reads with the same span through one constructor, symbolic coordinates" % locus, weight=400, budget_s=1200))
     from props import c09
     for n in ((2,) if q else (2, 3)):
         out.append(Instance("two_reads_grouped[%d]" % n, c09.h_profile_groups(n), ["src.long_read_counter:ProfileFeatureCounter.add_read_info_from_profile"],
